@@ -267,12 +267,15 @@ def r6_labels(ctx, rep, R='C12.R6'):
 
 def _token_sequence(fi):
     """[(kind, value)] of what the method prints, in order; None if it prints nothing"""
+    from .common import expander
     ps = set(params(fi))
+    expand = expander(fi.node, lambda v: isinstance(v, (ast.Tuple, ast.Constant, ast.BinOp, ast.JoinedStr)))
     for c in own_calls(fi.node):
-        if dotted(c.func) == 'print' and c.args and isinstance(c.args[0], ast.BinOp) and \
-                isinstance(c.args[0].op, ast.Mod) and isinstance(c.args[0].left, ast.Constant):
-            fmt = c.args[0].left.value
-            right = c.args[0].right
+        a0 = expand(c.args[0]) if c.args else None
+        if dotted(c.func) == 'print' and a0 is not None and isinstance(a0, ast.BinOp) and \
+                isinstance(a0.op, ast.Mod) and isinstance(a0.left, ast.Constant):
+            fmt = a0.left.value
+            right = a0.right
             args = right.elts if isinstance(right, ast.Tuple) else [right]
             pieces = re.split(r'%[-#0 +]*\d*(?:\.\d+)?[sdifr]', fmt)
             seq = [('text', pieces[0])]
